@@ -154,6 +154,11 @@ def main(tier, seed, prop="C04", worker_fn=None, rule=None, assumptions=None, ma
     chunks = 16 if tier == "quick" else 64
     tasks = ([(-1, 0)] if corpus_task else []) + [(n // chunks, seed * 7919 + i) for i in range(chunks)]
     modname = (worker_fn or worker).__module__
+    if tier == "thorough":
+        # exhaustive small-scope enumerations (chunk id -2, slice i of k), for the checks that define one
+        import importlib
+        k = getattr(importlib.import_module(modname), "EXHAUSTIVE_SLICES", 0)
+        tasks += [(-2, i) for i in range(k)]
     tasks = [(modname, tier, t) for t in tasks]
     failures, nfail, stats, samples, distinct = [], 0, {}, [], 0
     with mp.Pool(min(16, os.cpu_count() or 4)) as pool:
